@@ -86,7 +86,7 @@ pub fn run(ctx: &Ctx) -> Outcome {
                         }
                         // the same through a caller-supplied closure passed to *_with_backend (full groups via *_par_blocks,
                         // remainder block by block or via *_tail_blocks if non-empty), as one call and as every two-way split
-                        for mode in [1u8, 2, 3, 4, 5, 6] {
+                        for mode in [1u8, 2, 3, 4, 5, 6, 7, 8] {
                             for cut in 0..n.max(1) {
                                 rep.case(|| {
                                     let mut obj = rec::bm(cfg, d, key, &iv);
